@@ -141,6 +141,29 @@ def run(ctx, rep):
                       "statistic %s.%s is serialised but not compared when an input statistics file is validated (compared=%s copied=%s delegated=%s)" % (
                           name, fld, fld in compared, fld in copied, fld in delegated))
 
+    # ---------- R15.1b accessors named after a field return that field (validate_other rebuilds `other` through them)
+    import re as _re
+    from ..thir import Sym as _Sym, vkey as _vkey, ckey as _ckey, Unsupported as _Uns, Cond as _Cond
+    n_acc = 0
+    for s_ in structs:
+        name = s_.split("::")[-1]
+        fields = [fd["name"] for fd in f.adts[s_]["variants"][0]["fields"]]
+        for fld in fields:
+            acc = "%s::%s" % (s_, fld)
+            fn = f.fns.get(acc)
+            if not fn or not fn.get("mir") or fn["mir"]["argc"] != 1:
+                continue
+            n_acc += 1
+            try:
+                r = ev.call_fn(acc, [_Sym("SELF")])
+                k = _ckey(r) if isinstance(r, _Cond) else _vkey(r)
+            except _Uns as e:
+                k = "unsupported"
+            used = set(_re.findall(r"SELF\.(\w+)", k))
+            rep.check(used == {fld}, "R15.1", "R15.1|accessor|%s.%s" % (name, fld), "%s::%s() reads field %s" % (name, fld, fld), acc,
+                      "accessor %s::%s() reads field(s) %s — statistics rebuilt or reported through it belong to another field" % (name, fld, sorted(used) or k[:80]))
+    rep.floor("R15.1-accessors", n_acc, 25, "field-named accessors of the statistics structs")
+
     # ---------- R15.2 serde symmetry
     for a in adts:
         name = a.split("::")[-1]
